@@ -4,6 +4,7 @@
 // fingerprints of reachable states are collision free (A-FP, explicit) and no early exit has happened before.
 
 // the layer clauses are claimed under these two hypotheses only
+#[verifier::opaque]
 spec fn layer_on<M: Model>(m: M, unexp0: Set<Fingerprint>) -> bool { fp_inj_reach(m) && unexp0 =~= Set::<Fingerprint>::empty() }
 
 // no model path ending in s has fewer than n states
@@ -70,10 +71,10 @@ proof fn shallow_step<M: Model>(m: M, g: Gen, st: StMap<M::State>, pth: PthMap<M
                                 e: Set<Fingerprint>, s: Set<Fingerprint>, u: Set<Fingerprint>, k: Fingerprint, d: int, target: Option<NonZeroUsize>)
     requires
         pend_inv(m, g, st, pth, q), span_ok(q, d), partition_ok(g.dom(), q, (e + s + u).insert(k)), pth[k].len() == d,
-        skip_deep(pth, s, target), (match target { Some(t) => d < t.get(), None => true }), u =~= Set::<Fingerprint>::empty(),
+        skip_deep(pth, s, target), (match target { Some(t) => d < t.get(), None => true }), layer_on(m, u),
     ensures shallow_exp(g, pth, e, d)
 {
-    reveal(pend_inv); reveal(span_ok); reveal(partition_ok); reveal(skip_deep); reveal(shallow_exp);
+    reveal(layer_on); reveal(pend_inv); reveal(span_ok); reveal(partition_ok); reveal(skip_deep); reveal(shallow_exp);
     assert forall|x: Fingerprint| #[trigger] g.contains_key(x) && pth[x].len() < d implies e.contains(x) by {
         assert(g.dom().contains(x));
         if pend_has(q, x) {
@@ -88,13 +89,13 @@ proof fn shallow_step<M: Model>(m: M, g: Gen, st: StMap<M::State>, pth: PthMap<M
 
 // ... hence every state with a path of d states is generated too
 //@props C13
-proof fn level_up<M: Model>(m: M, g: Gen, st: StMap<M::State>, pth: PthMap<M::State>, expanded: Set<Fingerprint>, d: int)
+proof fn level_up<M: Model>(m: M, g: Gen, st: StMap<M::State>, pth: PthMap<M::State>, expanded: Set<Fingerprint>, d: int, u: Set<Fingerprint>)
     requires
         gen_inv(m, g, st, pth), short_ok(m, g, st, pth), level_gen(m, g, st, d - 1), shallow_exp(g, pth, expanded, d),
-        closed_ok(m, g, st, expanded), inits_generated(m, g), fp_inj_reach(m),
+        closed_ok(m, g, st, expanded), inits_generated(m, g), layer_on(m, u),
     ensures level_gen(m, g, st, d)
 {
-    reveal(level_gen);
+    reveal(level_gen); reveal(layer_on);
     assert forall|ss: Seq<M::State>| #[trigger] is_path(m, ss) && ss.len() <= d implies gen_at(g, st, ss.last()) by {
         if ss.len() == d { level_up_one(m, g, st, pth, expanded, d, ss); }
     }
